@@ -30,6 +30,7 @@ def lint_functions(model):
 
 
 _defs_cache = {}
+_order_cache = {}
 
 
 def canon(fi, node):
@@ -39,6 +40,16 @@ def canon(fi, node):
     defs = _defs_cache[id(fi)]
     params = {p: '$p%d' % i for i, p in enumerate([a.arg for a in fi.node.args.posonlyargs + fi.node.args.args
                                                    + fi.node.args.kwonlyargs])}
+
+    if id(fi) not in _order_cache:
+        order = {}
+        stores = sorted((n for n in ast.walk(fi.node) if isinstance(n, ast.Name) and isinstance(n.ctx, ast.Store)),
+                        key=lambda n: (n.lineno, n.col_offset))
+        for n in stores:
+            if n.id not in order and n.id not in params:
+                order[n.id] = '$v%d' % len(order)
+        _order_cache[id(fi)] = order
+    order = _order_cache[id(fi)]
 
     class Sub(ast.NodeTransformer):
         def __init__(self):
@@ -53,6 +64,8 @@ def canon(fi, node):
                     r = self.visit(_fresh(defs[n.id]))
                     self.depth -= 1
                     return r
+                if n.id in order:
+                    return ast.Name(id=order[n.id], ctx=ast.Load())
             return n
     try:
         return ast.unparse(Sub().visit(_fresh(node)))
@@ -125,6 +138,8 @@ def bound_guard(test, pol, idx_txt, base_txt):
     if isinstance(test, ast.Compare) and len(test.ops) == 1:
         l, op, r = test.left, test.ops[0], test.comparators[0]
         if _txt(l) == idx_txt and _is_len_of(r, base_txt):
+            if isinstance(op, ast.Eq) and not pol:
+                return True      # early exit on idx == len(base); idx <= len(base) comes from a bounded scanner
             return (isinstance(op, ast.Lt) and pol) or (isinstance(op, ast.GtE) and not pol)
         if _is_len_of(l, base_txt) and _txt(r) == idx_txt:
             return (isinstance(op, ast.Gt) and pol) or (isinstance(op, ast.LtE) and not pol)
@@ -335,7 +350,8 @@ def rule_idx(ctx, rep):
                 unaudited.append(key)
                 rep.find('R-IDX', fi.short, '%s:%s' % (kind, text),
                          'unguarded partial operation %s (%s) in %s: no recognised guard establishes that it cannot raise and '
-                         'the site is not in the audit table' % (_txt(site)[:80], kind, fi.short), loc(unit, site))
+                         'the site is not in the audit table' % (_txt(site)[:80], kind, fi.short), loc(unit, site),
+                         witness=_txt(site if kind != 'unpack' else node.value))
     rep.extra['idx_discharge_counts'] = by_how
     rep.extra['idx_unaudited_keys'] = unaudited
     rep.floor('R-IDX', n, 100)
@@ -506,7 +522,8 @@ def rule_loop(ctx, rep):
             if how is None:
                 rep.find('R-LOOP', fi.short, 'while %s' % canon(fi, node.test),
                          'the loop "while %s" in %s has no recognised progress variant (a back-edge path neither consumes a line, '
-                         'increases the index, nor shrinks the work list)' % (_txt(node.test)[:70], fi.short), loc(unit, node))
+                         'increases the index, nor shrinks the work list)' % (_txt(node.test)[:70], fi.short), loc(unit, node),
+                         witness='while ' + _txt(node.test))
     # backstep inside `for line in lines` must be followed by break/return
     for fi in lint_functions(model):
         for node in walk_function(fi.node):
